@@ -181,9 +181,20 @@ func (f *Fn) Defs() map[types.Object][]defSite {
 // SingleDef returns the only definition of obj, if it has exactly one.
 func (f *Fn) SingleDef(obj types.Object) (defSite, bool) {
 	ds := f.Defs()[obj]
-	// a zero-value declaration followed by exactly one assignment is NOT single (the zero value can be observed)
 	if len(ds) == 1 {
 		return ds[0], true
+	}
+	// a zero-value declaration plus exactly one real assignment: the variable holds that value whenever it
+	// has been assigned (identity flow: "that value or still zero"). Path-sensitive rules see the zero value
+	// through the path store, which takes precedence over this static expansion.
+	var real []defSite
+	for _, d := range ds {
+		if !d.zero {
+			real = append(real, d)
+		}
+	}
+	if len(real) == 1 && len(ds) == 2 && (real[0].kind == defExpr || real[0].kind == defTuple) {
+		return real[0], true
 	}
 	return defSite{}, false
 }
@@ -198,6 +209,68 @@ func (f *Fn) ClosureMutated(obj types.Object) bool {
 		}
 	}
 	return false
+}
+
+// AssignedOutside reports whether obj receives a real assignment (not its zero-value declaration) in a
+// function body other than f's own: value tracking along f's paths cannot see those.
+func (f *Fn) AssignedOutside(obj types.Object) bool {
+	for _, d := range f.Defs()[obj] {
+		if d.zero || d.kind == defParam {
+			continue
+		}
+		if d.lit != f.Lit {
+			return true
+		}
+	}
+	return false
+}
+
+// DefInfo is the exported view of one definition site of a local.
+type DefInfo struct {
+	Canon string       // canonical form of the defined value ("zero", "pN", "expr", "expr#i", "each(x)", "?")
+	Expr  ast.Expr     // right-hand side (nil for zero/param/opaque)
+	Lit   *ast.FuncLit // innermost literal containing the definition (nil: root function)
+	Pos   token.Pos
+	Zero  bool
+	Param bool
+}
+
+// DefSites lists the definition sites of obj in f's root function.
+func (f *Fn) DefSites(obj types.Object) []DefInfo {
+	var out []DefInfo
+	for _, d := range f.Defs()[obj] {
+		di := DefInfo{Expr: d.expr, Lit: d.lit, Pos: d.pos, Zero: d.zero}
+		switch d.kind {
+		case defParam:
+			di.Canon, di.Param = d.name, true
+		case defExpr, defTypeSw:
+			di.Canon = f.Canon(d.expr)
+		case defTuple:
+			di.Canon = fmt.Sprintf("%s#%d", f.Canon(d.expr), d.idx)
+		case defRangeK:
+			di.Canon = "keyof(" + f.Canon(d.expr) + ")"
+		case defRangeV:
+			di.Canon = "each(" + f.Canon(d.expr) + ")"
+		default:
+			if d.zero {
+				di.Canon = "zero"
+			} else {
+				di.Canon = "?"
+			}
+		}
+		out = append(out, di)
+	}
+	return out
+}
+
+// SingleDefExpr returns the defining expression of a local with exactly one definition (for tuple
+// definitions the multi-valued right-hand side).
+func (f *Fn) SingleDefExpr(obj types.Object) (ast.Expr, bool) {
+	d, ok := f.SingleDef(obj)
+	if !ok || d.expr == nil {
+		return nil, false
+	}
+	return d.expr, true
 }
 
 // DefCount returns how many definition sites obj has in the function.
